@@ -933,6 +933,7 @@ class Pyramid(object):
     def _walk_parallel(self, callback, cli_progress, parallel):
         import multiprocessing as mp
         from queue import Empty
+        from .par_util import check_workers, join_workers
 
         # When dispatching we keep track of finished tiles (reported in
         # `done_queue`) and notify workers when new tiles are ready to process
@@ -1032,7 +1033,9 @@ class Pyramid(object):
                     pos = done_queue.get(True, timeout=1)
                 except (OSError, ValueError, Empty):
                     # OSError or ValueError => queue closed. This signal seems not to
-                    # cross multiprocess lines, though.
+                    # cross multiprocess lines, though. If a worker died, the tile
+                    # that it was processing will never be reported as done.
+                    check_workers(workers, done_event)
                     continue
 
                 progress.update(1)
@@ -1061,9 +1064,7 @@ class Pyramid(object):
         ready_queue.close()
         ready_queue.join_thread()
         done_event.set()
-
-        for w in workers:
-            w.join()
+        join_workers(workers)
 
     def visit_leaves(
         self,
@@ -1158,6 +1159,7 @@ class Pyramid(object):
 
     def _visit_leaves_parallel(self, callback, total, cli_progress, parallel):
         import multiprocessing as mp
+        from .par_util import join_workers, put_to_workers
 
         ready_queue = mp.Queue(maxsize=2 * parallel)
         done_event = mp.Event()
@@ -1182,7 +1184,7 @@ class Pyramid(object):
         with progress_bar(total=total, show=cli_progress) as progress:
             for pos, tile, is_leaf, _data in riter:
                 if is_leaf:
-                    ready_queue.put((pos, tile))
+                    put_to_workers(ready_queue, (pos, tile), workers, done_event)
                     progress.update(1)
 
                 riter.set_data(None)
@@ -1192,9 +1194,7 @@ class Pyramid(object):
         ready_queue.close()
         ready_queue.join_thread()
         done_event.set()
-
-        for w in workers:
-            w.join()
+        join_workers(workers)
 
 
 class PyramidReductionIterator(object):
